@@ -25,6 +25,9 @@ from metapype.model.node import Node
 
 logger = daiquiri.getLogger(__name__)
 
+# Additional entity for escaping text that is written inside a double-quoted attribute value
+QUOT = {'"': "&quot;"}
+
 
 def _from_dict(node: dict, parent: Node = None) -> Node:
     """
@@ -277,19 +280,19 @@ def to_xml(node: Node, parent: Node = None, level: int = 0, skip_ns: bool = Fals
 
     attributes = ""
     if len(node.attributes) > 0:
-        attributes += " ".join([f"{k}=\"{v}\"" for k, v in node.attributes.items()])
+        attributes += " ".join([f"{k}=\"{escape(str(v), QUOT)}\"" for k, v in node.attributes.items()])
 
     if not skip_ns:
         if parent is None:
             if len(node.nsmap) > 0:
-                attributes += " " + " ".join([f"xmlns:{k}=\"{v}\"" for k, v in node.nsmap.items()])
+                attributes += " " + " ".join([f"xmlns:{k}=\"{escape(str(v), QUOT)}\"" for k, v in node.nsmap.items()])
         elif node.nsmap != parent.nsmap:
             nsmap = _nsp_unique(node.nsmap, parent.nsmap)
             if len(nsmap) > 0:
-                attributes += " " + " ".join([f"xmlns:{k}=\"{v}\"" for k, v in nsmap.items()])
+                attributes += " " + " ".join([f"xmlns:{k}=\"{escape(str(v), QUOT)}\"" for k, v in nsmap.items()])
 
     if len(node.extras) > 0:
-        attributes += " " + " ".join([f"{k}=\"{v}\"" for k, v in node.extras.items()])
+        attributes += " " + " ".join([f"{k}=\"{escape(str(v), QUOT)}\"" for k, v in node.extras.items()])
 
     if len(attributes) > 0:
         # Add final prefix-space to attribute string
